@@ -38,6 +38,7 @@ type C13Outage struct {
 	FromMs int    `json:"from_ms"`
 	ToMs   int    `json:"to_ms"`
 	Kind   string `json:"kind"` // silent servfail refused slow
+	DelayMs int   `json:"delay_ms,omitempty"` // kind slow: how late the (correct) answers come (0 = 900 ms)
 }
 
 type C13Scenario struct {
@@ -46,6 +47,7 @@ type C13Scenario struct {
 	MaxS       int         `json:"max_s"`
 	Size       int         `json:"size"`
 	RFC9520Off bool        `json:"rfc9520_off,omitempty"`
+	QTimeoutS  int  `json:"qtimeout_s,omitempty"` // sdns query timeout in seconds (0 = 6)
 	Budget     uint32      `json:"budget,omitempty"` // enforce-mode outbound budget (0 = firewall shadow)
 	ECS        bool        `json:"ecs,omitempty"`    // client-subnet forwarding on: questions have audiences
 	Outages    []C13Outage `json:"outages"`
@@ -97,6 +99,10 @@ func c13Audience(sc *C13Scenario, op C13Op) string {
 }
 
 var c13Zones = []string{"alpha.test.", "beta.test.", "sub.alpha.test.", "gamma.test."}
+
+// c13AllZones adds delta.test., which never has an outage of its own: its only server is named
+// in beta.test. and delegated without glue, so resolving it needs a nested address lookup.
+var c13AllZones = append(append([]string(nil), c13Zones...), "delta.test.")
 
 func genC13(r *kit.RNG) *C13Scenario {
 	sc := &C13Scenario{Seed: r.Uint64(), MinS: kit.Pick(r, []int{1, 2, 5, 5, 10, 30}), Size: kit.Pick(r, []int{1, 2, 8, 4096}), RFC9520Off: r.Chance(0.1)}
@@ -185,6 +191,29 @@ func genC13(r *kit.RNG) *C13Scenario {
 		}
 		t += 7000 // leave room for the slowest resolution before the next question
 	}
+	if r.Chance(0.25) {
+		// swallowed-deadline recipe: delta.test. is delegated without glue to a host of
+		// beta.test., whose servers are healthy but slow. A question with a short client deadline
+		// is cut while the nested address lookup is still waiting: no server failed, whatever
+		// error the nested step reports. The same question right afterwards must be resolved,
+		// not answered from a remembered failure.
+		t += 10000
+		sc.Outages = append(sc.Outages, C13Outage{Zone: "beta.test.", FromMs: t - 3000, ToMs: t + 40000, Kind: "slow"})
+		d := kit.Pick(r, []int{300, 600, 0, 0})
+		if d == 0 {
+			// ... or it is sdns's own query timeout (one second in this scenario) that ends the
+			// request, inside the nested lookup
+			sc.QTimeoutS = 1
+			sc.Outages[len(sc.Outages)-1].DelayMs = 1500 // later than the query timeout, sooner than the per-exchange timeout (2 s)
+		}
+		q := C13Op{AtMs: t, Name: "www.delta.test.", Type: 1, DeadlineMs: d}
+		sc.Ops = append(sc.Ops, q)
+		if d == 0 {
+			d = 1000
+		}
+		q.AtMs, q.DeadlineMs = t+d+kit.Pick(r, []int{200, 800}), 0
+		sc.Ops = append(sc.Ops, q)
+	}
 	return sc
 }
 
@@ -197,7 +226,9 @@ func c13Spec(sc *C13Scenario) *world.Spec {
 			Records: []string{"ns1.alpha.test. 86400 IN A 192.0.2.21", "ns2.alpha.test. 86400 IN A 192.0.2.22", "www.alpha.test. 5 IN A 10.0.0.1", "mail.alpha.test. 5 IN A 10.0.0.2", "alpha.test. 5 IN A 10.0.0.3", "www.alpha.test. 5 IN TXT \"t\""}},
 		{Name: "beta.test.", NSNames: []string{"ns1.beta.test.", "ns2.beta.test."}, Addrs: []string{"192.0.2.31", "192.0.2.32"}, NSTTL: 86400,
 			Records: []string{"ns1.beta.test. 86400 IN A 192.0.2.31", "ns2.beta.test. 86400 IN A 192.0.2.32", "www.beta.test. 5 IN A 10.0.1.1",
-				"loop.beta.test. 5 IN CNAME loop2.beta.test.", "loop2.beta.test. 5 IN CNAME loop.beta.test."}},
+				"loop.beta.test. 5 IN CNAME loop2.beta.test.", "loop2.beta.test. 5 IN CNAME loop.beta.test.", "ns.dhost.beta.test. 5 IN A 192.0.2.61"}},
+		{Name: "delta.test.", NSNames: []string{"ns.dhost.beta.test."}, Addrs: []string{"192.0.2.61"}, NSTTL: 86400, NoGlue: true,
+			Records: []string{"www.delta.test. 5 IN A 10.0.4.1"}},
 		{Name: "sub.alpha.test.", NSNames: []string{"ns1.sub.alpha.test."}, Addrs: []string{"192.0.2.41"}, NSTTL: 86400,
 			Records: []string{"ns1.sub.alpha.test. 86400 IN A 192.0.2.41", "www.sub.alpha.test. 5 IN A 10.0.2.1"}},
 	}
@@ -213,6 +244,9 @@ func c13Spec(sc *C13Scenario) *world.Spec {
 	sp.Cfg.FailMinS, sp.Cfg.FailMaxS, sp.Cfg.FailSize = sc.MinS, sc.MaxS, sc.Size
 	sp.Cfg.RFC9520Off = sc.RFC9520Off
 	sp.Cfg.QueryTimeoutS = 6
+	if sc.QTimeoutS > 0 {
+		sp.Cfg.QueryTimeoutS = sc.QTimeoutS
+	}
 	sp.Cfg.Expire = 5
 	if sc.ECS {
 		sp.Cfg.ECS = &config.ECSConfig{Enabled: true}
@@ -288,6 +322,9 @@ func execC13(sc *C13Scenario, tr *kit.Trace, res *kit.Result) {
 			r := world.PackReply(honest.Msg, q)
 			for i := range r {
 				r[i].Delay = 900 * time.Millisecond
+				if o.DelayMs > 0 {
+					r[i].Delay = time.Duration(o.DelayMs) * time.Millisecond
+				}
 			}
 			return r
 		}
@@ -298,7 +335,7 @@ func execC13(sc *C13Scenario, tr *kit.Trace, res *kit.Result) {
 	// there), else the deepest zone enclosing the name.
 	zoneOf := func(name string, at time.Duration) string {
 		best, failing := "", ""
-		for _, z := range c13Zones {
+		for _, z := range c13AllZones {
 			if !dns.IsSubDomain(z, dns.CanonicalName(name)) {
 				continue
 			}
@@ -319,7 +356,7 @@ func execC13(sc *C13Scenario, tr *kit.Trace, res *kit.Result) {
 	failingZones := func(name string, at time.Duration) []string {
 		var out []string
 		deepest := ""
-		for _, z := range c13Zones {
+		for _, z := range c13AllZones {
 			if !dns.IsSubDomain(z, dns.CanonicalName(name)) {
 				continue
 			}
@@ -521,7 +558,7 @@ func execC13(sc *C13Scenario, tr *kit.Trace, res *kit.Result) {
 			// request-local: ended by the work budget, or by the client's deadline before
 			// silent servers could have been found out (that takes whole upstream timeouts)
 			fastFailureOnPath := false
-			for _, z := range c13Zones {
+			for _, z := range c13AllZones {
 				if dns.IsSubDomain(z, dns.CanonicalName(op.Name)) {
 					// (an outage that begins while the question is being resolved counts too)
 					for _, at := range []time.Duration{arrive, done} {
